@@ -60,8 +60,8 @@ def all_cutsets(stream, start):
 def run(rep, info, model, tier, seed):
     rnd = random.Random(seed)
     proof_ok = rep.proof_obligations(info, "props/C02.v")
-    nbase = 60 if tier == "quick" else 400
-    nrand = 12 if tier == "quick" else 60
+    nbase = 60 if tier == "quick" else 200
+    nrand = 12 if tier == "quick" else 40
     groups = []
     for kind, hs, body, app in base_streams(rnd, nbase):
         stream = hs + body
